@@ -1360,6 +1360,34 @@ class BuiltinsMixin:
                 return
         raise RaiseSig(SExc(exc_class("KeyError")), self.lineno)
 
+    def _concrete_set(self, x, what):
+        items = self.static_items_req(self.resolve(x))
+        if not all(isinstance(i, (str, int, bytes, tuple)) or i is None for i in items):
+            raise Unsupported(f"set.{what} with symbolic elements")
+        return items
+
+    def m_set_difference(self, s, *others):
+        mine = self._concrete_set(s, "difference")
+        drop = set()
+        for o in others:
+            drop.update(self._concrete_set(o, "difference"))
+        return SSet([x for x in mine if x not in drop])
+
+    def m_set_union(self, s, *others):
+        out = list(self._concrete_set(s, "union"))
+        for o in others:
+            for x in self._concrete_set(o, "union"):
+                if x not in out:
+                    out.append(x)
+        return SSet(out)
+
+    def m_set_intersection(self, s, *others):
+        out = list(self._concrete_set(s, "intersection"))
+        for o in others:
+            keep = self._concrete_set(o, "intersection")
+            out = [x for x in out if x in keep]
+        return SSet(out)
+
     def m_set_discard(self, s, v):
         try:
             self.m_set_remove(s, v)
